@@ -1240,8 +1240,7 @@ def rule_r14(ctx) -> RuleResult:
         if guarded:
             rr.ok("parserfns", label + " under a test of " + call_txt, {"site": label, "line": n.lineno})
         else:
-            rr.bad(Finding("C05.R14", m.relpath, "parserfns.time_fmt_map" if "fmt" in unparse(parents.get(parents.get(n), n))[:0] or True else "parserfns",
-                           label, "`{}` is None for a naive datetime (#timel with `@<unix time>`, 14-digit timestamps) and `.{}` is taken "
+            rr.bad(Finding("C05.R14", m.relpath, "parserfns.time_fmt_map", label, "`{}` is None for a naive datetime (#timel with `@<unix time>`, 14-digit timestamps) and `.{}` is taken "
                            "without a test: AttributeError leaves expand()".format(call_txt, n.attr), n.lineno))
     return rr
 
